@@ -288,6 +288,8 @@ theorem afterTd_onDisk (s : St) (b : Blk) (ptd : Nat) :
     · exact updB_true_of _ _ _ hk
     · exact hk
 
+theorem afterStored_onDisk (s : St) (b : Blk) (ptd : Nat) : (afterStored s b ptd).onDisk = (afterTd s b ptd).onDisk := rfl
+
 /-- extension of the head: `b.parent = head` -/
 theorem invC_extend {U : Map Blk} (W : World U) {s : St} {hb : Blk} {C : List Blk} (h : InvC U s hb C) {b p : Blk}
     (hbU : U b.id = some b) (hpar : parentOf s.store b = some p) (hps : s.hasState b.parent = true)
@@ -339,7 +341,7 @@ theorem invC_reorg {U : Map Blk} (W : World U) {s : St} {hb : Blk} {C O R N : Li
     {ptd : Nat} (hptd : s.td b.parent = some ptd)
     (hsplit : C = O ++ R) (hO : Path s.store hb O c) (hR : Path s.store c R s.genesis)
     (hN : Path s.store b N c) (hNne : N ≠ []) (hnc : s.canon b.number ≠ some b.id) :
-    InvC U (afterCanon (reorgApply (afterTd s b ptd) hb.number O N) b) b (N ++ R) := by
+    InvC U (afterCanon (reorgApply (afterStored s b ptd) hb.number O N) b) b (N ++ R) := by
   obtain ⟨N', hNeq⟩ : ∃ N', N = b :: N' := by
     rcases hN.head_eq with ⟨h1, _⟩ | ⟨l', h1⟩
     · exact absurd h1 hNne
@@ -355,7 +357,7 @@ theorem invC_reorg {U : Map Blk} (W : World U) {s : St} {hb : Blk} {C O R N : Li
   have hbnd : b.txs.Nodup := hndN.sublist (txs_sublist_flatMap N b hbN)
   have hcnum : c.number < b.number := (hNnum b hbN).1
   -- abbreviations
-  let s1 := afterTd s b ptd
+  let s1 := afterStored s b ptd
   have hs1c : s1.canon = s.canon := rfl
   have hs1l : s1.lookup = s.lookup := rfl
   -- closed forms of the final state
@@ -393,8 +395,8 @@ theorem invC_reorg {U : Map Blk} (W : World U) {s : St} {hb : Blk} {C O R N : Li
     simpa using h2
   have := invC_newchain W (s := s) (s' := afterCanon (reorgApply s1 hb.number O N) b) (O := O) (R := R) (N := N) (b := b) (c := c)
     h hsplit hO hR hbU hN hNne
-    (by simp [afterCanon, insertHead, reorgApply_store, s1, afterTd])
-    (by simp [afterCanon, insertHead, reorgApply_genesis, s1, afterTd])
+    (by simp [afterCanon, insertHead, reorgApply_store, s1, afterStored, afterTd])
+    (by simp [afterCanon, insertHead, reorgApply_genesis, s1, afterStored, afterTd])
     (by
       intro x hx
       rw [hfc]
@@ -448,18 +450,18 @@ theorem invC_reorg {U : Map Blk} (W : World U) {s : St} {hb : Blk} {C O R N : Li
         if_neg (by rw [mem_txDifference]; exact fun hh => h2 hh.1), foldr_lookup_notin _ _ _ h1, hs1l])
     (by rw [hNeq]; simp [afterCanon, insertHead])
     hheads.1 hheads.2
-    (by simp [afterCanon, insertHead, reorgApply_seen, s1, afterTd])
-    (by simp [afterCanon, insertHead, reorgApply_receipts, s1, afterTd])
-    (by simp [afterCanon, insertHead, reorgApply_hasState, s1, afterTd])
+    (by simp [afterCanon, insertHead, reorgApply_seen, s1, afterStored, afterTd])
+    (by simp [afterCanon, insertHead, reorgApply_receipts, s1, afterStored, afterTd])
+    (by simp [afterCanon, insertHead, reorgApply_hasState, s1, afterStored, afterTd])
     (by
       intro k hk
       apply (afterTd_onDisk s b ptd).1 k
-      simpa [afterCanon, insertHead, reorgApply_onDisk] using hk)
+      simpa [afterCanon, insertHead, reorgApply_onDisk, s1, afterStored_onDisk] using hk)
     (by
       intro k hk
       have := (afterTd_onDisk s b ptd).2 k hk
-      simpa [afterCanon, insertHead, reorgApply_onDisk] using this)
-    hps ⟨ptd, hptd, by simp [afterCanon, insertHead, reorgApply_td, s1, afterTd]⟩
+      simpa [afterCanon, insertHead, reorgApply_onDisk, s1, afterStored_onDisk] using this)
+    hps ⟨ptd, hptd, by simp [afterCanon, insertHead, reorgApply_td, s1, afterStored, afterTd]⟩
   exact this
 
 
@@ -522,7 +524,7 @@ theorem invC_withoutState {U : Map Blk} (W : World U) {s : St} {hb : Blk} {C : L
 /-- the degenerate "reorganisation" onto the head itself: every write repeats what is already there -/
 theorem invC_rehead {U : Map Blk} (W : World U) {s : St} {hb : Blk} {C : List Blk} (h : InvC U s hb C) {p : Blk}
     (hpar : parentOf s.store hb = some p) {ptd : Nat} (hptd : s.td hb.parent = some ptd) :
-    InvC U (afterCanon (reorgApply (afterTd s hb ptd) hb.number [] []) hb) hb C := by
+    InvC U (afterCanon (reorgApply (afterStored s hb ptd) hb.number [] []) hb) hb C := by
   have hbU := h.headU W
   have hid := h.headId W
   obtain ⟨he1, he2⟩ := storeExt_upd h hbU
@@ -533,18 +535,18 @@ theorem invC_rehead {U : Map Blk} (W : World U) {s : St} {hb : Blk} {C : List Bl
   have hbnd : hb.txs.Nodup := by
     have := W.nodup _ _ _ _ hbU (Path.cons (parentOf_mono h.sub hpar) (.nil p))
     simpa using this
-  have hcanon : ∀ n, (afterCanon (reorgApply (afterTd s hb ptd) hb.number [] []) hb).canon n = s.canon n := by
+  have hcanon : ∀ n, (afterCanon (reorgApply (afterStored s hb ptd) hb.number [] []) hb).canon n = s.canon n := by
     intro n
-    simp only [afterCanon, insertHead, reorgApply, afterTd, List.foldr_nil]
+    simp only [afterCanon, insertHead, reorgApply, afterStored, afterTd, List.foldr_nil, upd_upd_same, updB_updB_same]
     by_cases hn : n = hb.number
     · subst hn; simp [h.canonHead]
     · rw [upd_other _ _ _ _ hn]
-  refine invC_frame h (s' := afterCanon (reorgApply (afterTd s hb ptd) hb.number [] []) hb) ?_ ?_ rfl hcanon ?_ ?_ ?_ ?_
+  refine invC_frame h (s' := afterCanon (reorgApply (afterStored s hb ptd) hb.number [] []) hb) ?_ ?_ rfl hcanon ?_ ?_ ?_ ?_
     ?_ ?_ ?_ ?_ ?_ ?_ ?_ ?_ ?_
-  · simpa [afterCanon, insertHead, reorgApply, afterTd] using he1
-  · simpa [afterCanon, insertHead, reorgApply, afterTd] using he2
+  · simpa [afterCanon, insertHead, reorgApply, afterStored, afterTd] using he1
+  · simpa [afterCanon, insertHead, reorgApply, afterStored, afterTd] using he2
   · intro t
-    simp only [afterCanon, insertHead, reorgApply, afterTd, List.foldr_nil, List.flatMap_nil, txDifference,
+    simp only [afterCanon, insertHead, reorgApply, afterStored, afterTd, List.foldr_nil, List.flatMap_nil, txDifference,
       List.filter_nil, delLookups]
     by_cases ht : t ∈ hb.txs
     · obtain ⟨j, hj⟩ := List.mem_iff_getElem?.mp ht
@@ -552,13 +554,13 @@ theorem invC_rehead {U : Map Blk} (W : World U) {s : St} {hb : Blk} {C : List Bl
       exact ((h.lookup t ⟨hb.id, hb.number, j⟩).mpr ⟨hb, hmem, rfl, rfl, hj⟩).symm
     · rw [writeLookups_not_mem _ _ _ ht]
   · simp [afterCanon, insertHead, hid]
-  · simp [afterCanon, insertHead, reorgApply, afterTd, h.canonHead]
-  · simp [afterCanon, insertHead, reorgApply, afterTd, h.canonHead]
+  · simp [afterCanon, insertHead, reorgApply, afterStored, afterTd, h.canonHead]
+  · simp [afterCanon, insertHead, reorgApply, afterStored, afterTd, h.canonHead]
   · intro k hk
-    simp only [afterCanon, insertHead, reorgApply, afterTd, List.foldr_nil]
+    simp only [afterCanon, insertHead, reorgApply, afterStored, afterTd, List.foldr_nil, upd_upd_same, updB_updB_same]
     exact updB_true_of _ _ _ hk
   · intro k x hk hxU hx0
-    simp only [afterCanon, insertHead, reorgApply, afterTd, List.foldr_nil] at hk ⊢
+    simp only [afterCanon, insertHead, reorgApply, afterStored, afterTd, List.foldr_nil, upd_upd_same, updB_updB_same] at hk ⊢
     by_cases hkb : k = hb.id
     · subst hkb
       rw [hbU] at hxU; cases hxU
@@ -566,35 +568,35 @@ theorem invC_rehead {U : Map Blk} (W : World U) {s : St} {hb : Blk} {C : List Bl
     · rw [updB_other _ _ _ _ hkb] at hk
       exact updB_true_of _ _ _ (h.seenClosed k x hk hxU hx0)
   · intro k hk
-    simp only [afterCanon, insertHead, reorgApply, afterTd, List.foldr_nil] at hk ⊢
+    simp only [afterCanon, insertHead, reorgApply, afterStored, afterTd, List.foldr_nil, upd_upd_same, updB_updB_same] at hk ⊢
     by_cases hkb : k = hb.id
     · subst hkb; simp
     · rw [updB_other _ _ _ _ hkb] at hk
       exact updB_true_of _ _ _ (h.stateSeen k hk)
   · intro k hk
     have hk' : (afterTd s hb ptd).onDisk k = true := by
-      simpa [afterCanon, insertHead, reorgApply] using hk
+      simpa [afterCanon, insertHead, reorgApply, afterStored_onDisk] using hk
     have := (afterTd_onDisk s hb ptd).1 k hk'
     show updB s.hasState hb.id true k = true
     rcases this with hk'' | hk''
     · exact updB_true_of _ _ _ (h.diskState k hk'')
     · subst hk''; simp
   · intro k hk
-    simp only [afterCanon, insertHead, reorgApply, afterTd, List.foldr_nil] at hk ⊢
+    simp only [afterCanon, insertHead, reorgApply, afterStored, afterTd, List.foldr_nil, upd_upd_same, updB_updB_same] at hk ⊢
     by_cases hkb : k = hb.id
     · subst hkb; simp
     · rw [updB_other _ _ _ _ hkb] at hk
       exact updB_true_of _ _ _ (h.seenRcpt k hk)
   · have := tdIntr_upd W h hbU hpar hptd
-    simpa [afterCanon, insertHead, reorgApply, afterTd] using this
+    simpa [afterCanon, insertHead, reorgApply, afterStored, afterTd] using this
   · intro k x hx
-    simp only [afterCanon, insertHead, reorgApply, afterTd, List.foldr_nil] at hx ⊢
+    simp only [afterCanon, insertHead, reorgApply, afterStored, afterTd, List.foldr_nil, upd_upd_same, updB_updB_same] at hx ⊢
     by_cases hkb : k = hb.id
     · subst hkb; simp
     · rw [upd_other _ _ _ _ hkb] at hx ⊢
       exact h.storeTd k x hx
   · have := (afterTd_onDisk s hb ptd).2 _ h.genState
-    simpa [afterCanon, insertHead, reorgApply] using this
+    simpa [afterCanon, insertHead, reorgApply, afterStored_onDisk] using this
   · show updB s.hasState hb.id true s.head = true
     exact updB_true_of _ _ _ h.headState
 
@@ -629,18 +631,22 @@ theorem inv_wbws {U : Map Blk} (W : World U) {s : St} (h : Inv U s) {b p : Blk} 
       · rw [if_pos hdec] at hok ⊢
         by_cases hext : b.parent = hb.id
         · have : (b.parent != hb.id) = false := by simp [hext]
-          simp only [this]
+          simp only [this, Bool.false_eq_true, if_false]
           exact ⟨b, b :: C, invC_extend W h hbU hpar hps hptd hext⟩
         · have hne : (b.parent != hb.id) = true := by simp [hext]
           simp only [hne, if_true] at hok ⊢
-          cases hr : reorg (afterTd s b ptd) hb b with
+          cases hr : reorg (afterStored s b ptd) hb b with
           | none => rw [hr] at hok; exact absurd rfl hok
           | some s2 =>
             simp only
-            obtain ⟨o, n, c, c', oc1, nc1, oc2, nc2, hp1, ho, hp2, hn, hw1, hw2, hid, hsame, hs2⟩ := reorg_spec hr
-            have hstore1 : (afterTd s b ptd).store = s.store := rfl
-            rw [hstore1] at hp1 hp2 hw1 hw2
-            have hO := hp1.append hw1
+            obtain ⟨o, n, c, c', oc1, nc1, oc2, nc2, hp1', ho, hp2', hn, hw1', hw2', hid, hsame, hs2⟩ := reorg_spec hr
+            -- the walks were made on the store that already holds b: bring them back to the old store
+            have hext' : StoreExt s.store (afterStored s b ptd).store := (storeExt_upd h hbU).1
+            have hp1 : Path s.store hb oc1 o := h.pathFromHead hext' hp1'
+            have hO : Path s.store hb (oc1 ++ oc2) c := h.pathFromHead hext' (hp1'.append hw1')
+            have hmle : min hb.number b.number ≤ b.number := Nat.min_le_right _ _
+            have hp2 : Path s.store b nc1 n := Path.unupd hp2' (Nat.le_refl _)
+            have hw2 : Path s.store n nc2 c' := Path.unupd hw2' (by omega)
             have hN := hp2.append hw2
             obtain ⟨hcmem, R, hsplit, hR⟩ := h.memOfPath hO
             have hcU : U c.id = some c := h.sub _ _ (h.chainStored W c hcmem)
@@ -657,8 +663,10 @@ theorem inv_wbws {U : Map Blk} (W : World U) {s : St} (h : Inv U s) {b p : Blk} 
                 cases hwU; rfl
             subst hcc
             subst hs2
-            have hfuel : reorgFuel (afterTd s b ptd) hb = hb.number := by
-              simp [reorgFuel, afterTd, h.hheadEq, h.headStored]
+            have hfuel : reorgFuel (afterStored s b ptd) hb = hb.number := by
+              have h1 : (afterStored s b ptd).store s.head = some hb := hext' _ _ h.headStored
+              simp [reorgFuel, afterStored, afterTd, h.hheadEq] at h1 ⊢
+              rw [h1]; simp
             rw [hfuel]
             have hpid : p.id = b.parent := W.ids _ _ (h.sub _ _ (parentOf_some hpar).1)
             by_cases hNe : nc1 ++ nc2 = []
@@ -725,11 +733,11 @@ theorem headerCheck_none {store : Map Blk} {b : Blk} (h : headerCheck store b = 
 /-- the possible outcomes of `WriteBlockWithState` -/
 theorem wbws_cases (s : St) (b : Blk) (coin : Bool) :
     (∃ e, writeBlockWithState s b coin = ⟨s, some e⟩ ∧ e ≠ .reorgFail) ∨
-    (∃ ptd cur, s.td b.parent = some ptd ∧ s.store s.head = some cur ∧ reorg (afterTd s b ptd) cur b = none ∧
-      writeBlockWithState s b coin = ⟨afterTd s b ptd, some .reorgFail⟩) ∨
+    (∃ ptd cur, s.td b.parent = some ptd ∧ s.store s.head = some cur ∧ reorg (afterStored s b ptd) cur b = none ∧
+      writeBlockWithState s b coin = ⟨afterStored s b ptd, some .reorgFail⟩) ∨
     (∃ ptd s2 cur localTd, s.td b.parent = some ptd ∧ s.store s.head = some cur ∧ s.td s.head = some localTd ∧
       decideReorg (ptd + b.diff) localTd b.number cur.number coin = true ∧
-      (s2 = afterTd s b ptd ∨ reorg (afterTd s b ptd) cur b = some s2) ∧
+      (s2 = afterTd s b ptd ∨ reorg (afterStored s b ptd) cur b = some s2) ∧
       writeBlockWithState s b coin = ⟨afterCanon s2 b, none⟩) ∨
     (∃ ptd cur localTd, s.td b.parent = some ptd ∧ s.store s.head = some cur ∧ s.td s.head = some localTd ∧
       decideReorg (ptd + b.diff) localTd b.number cur.number coin = false ∧
@@ -754,7 +762,7 @@ theorem wbws_cases (s : St) (b : Blk) (coin : Bool) :
           simp only [if_true]
           by_cases hext : (b.parent != cur.id) = true
           · simp only [hext, if_true]
-            cases hr : reorg (afterTd s b ptd) cur b with
+            cases hr : reorg (afterStored s b ptd) cur b with
             | none => exact .inr (.inl ⟨ptd, cur, rfl, rfl, hr, rfl⟩)
             | some s2 => exact .inr (.inr (.inl ⟨ptd, s2, cur, localTd, rfl, rfl, rfl, hdec, .inr hr, rfl⟩))
           · simp only [hext]
@@ -771,7 +779,7 @@ theorem wbws_hasState (s : St) (b : Blk) (coin : Bool) (h : (writeBlockWithState
     · subst hs2; simp [afterTd]
     · obtain ⟨o, n, c, c', oc1, nc1, oc2, nc2, _, _, _, _, _, _, _, _, hs2⟩ := reorg_spec hr
       rw [hs2, reorgApply_hasState]
-      simp [afterTd]
+      simp [afterStored, afterTd]
   · rw [he]; simp [afterSide, afterTd]
 
 /-- the store only grows in `WriteBlockWithState` -/
@@ -781,14 +789,14 @@ theorem wbws_storeExt {U : Map Blk} {s : St} (h : Inv U s) {b : Blk} (hbU : U b.
   have hup := (storeExt_upd h hbU).1
   rcases wbws_cases s b coin with ⟨e, he, _⟩ | ⟨ptd, _, _, _, _, he⟩ | ⟨ptd, s2, cur, lt, _, _, _, _, hs2, he⟩ | ⟨ptd, cur, lt, _, _, _, _, he⟩
   · rw [he]; exact fun _ _ hx => hx
-  · rw [he]; exact fun _ _ hx => hx
+  · rw [he]; exact hup
   · rw [he]
     simp only [afterCanon, insertHead]
     rcases hs2 with hs2 | hr
     · subst hs2; exact hup
     · obtain ⟨o, n, c, c', oc1, nc1, oc2, nc2, _, _, _, _, _, _, _, _, hs2⟩ := reorg_spec hr
       rw [hs2, reorgApply_store]
-      exact hup
+      simpa [afterStored] using hup
   · rw [he]; exact hup
 
 theorem processWinners_cons_err {s : St} {w : Blk} {l : List Blk} {coins : List Bool} {e : Err}
